@@ -6,11 +6,14 @@ import container as C
 RULE = ("exhaustive: all histories of length<=3 (thorough 4) over add/remove/replace of four blocks with IDENTICAL encoded sizes on tables of 3 and 14 slots; "
         "exhaustive: all histories of length<=2 (quick) / <=4 (thorough) over a 12-operation alphabet on empty tables of 1,2,3 slots; "
         "seeded histories (length<=12) of add/remove/replace/five setters/reopen, valid and invalid variants, on start files: "
-        "fresh Tdf.new (N=14), pre-populated compact files with N in {1,2,3,5,14} incl. opaque blocks of undecodable types, "
+        "fresh Tdf.new (N=14), pre-populated compact files with N in {1,2,3,5,14} incl. opaque blocks of undecodable types, well-formed NON-compact files (junk between and after the blocks), "
         "(thorough) the BTS capture; after EVERY call the file is read independently and judged by Lean's wfB; "
         "non-trivial = >=2 successful mutations incl. a remove/replace/setter; distinct by (start, history)")
-ASSUMPTIONS = ["start states are compact files (what Tdf.new and BTS software write); blocks satisfy C02 (declared size = bytes written)"]
-STYLES = ["fresh", "n1", "n2", "n3", "n5", "n14", "n14"]
+ASSUMPTIONS = ["the THEOREMS start from compact files (what Tdf.new and BTS software write); well-formed files with junk between the blocks are covered by the correspondence of the byte-level model and by the wfB judge only",
+               "unused slots of start files point at or beyond the end of all live data (a slot pointing INTO live data makes the first add overwrite it: C09 defines that convention)",
+               "blocks satisfy C02 (declared size = bytes written)"]
+STYLES = ["fresh", "n1", "n2", "n3", "n5", "n14", "n14"]       # compact start files (C09 needs these)
+STYLES_WF = STYLES + ["gappy"]      # + well-formed files that are NOT compact: junk between and after the blocks (foreign software)
 
 
 def judge(ctx, r):
@@ -31,7 +34,7 @@ def judge(ctx, r):
 
 def run(ctx):
     import itertools
-    styles = STYLES + (["capture"] if ctx.thorough else [])
+    styles = STYLES_WF + (["capture"] if ctx.thorough else [])
     # exhaustive: every history of length <= 2 (quick) / <= 4 (thorough) over a 12-symbol alphabet, on empty tables of 1, 2, 3 slots
     depth = 4 if ctx.thorough else 2
     gens = [C.explore(ctx, ctx.n(600, 6000), 12, styles, p_invalid=0.2)] + [C.explore_exhaustive(ctx, n, depth) for n in (1, 2, 3)] \
